@@ -49,6 +49,38 @@ type jsonBlob struct {
 func init() {
 	reg("encoding/json.Marshal", func(it *Interp, fr *frame, fn *ssa.Function, args []Value) Value {
 		x := it.resolveNil(fr, args[0]).(Iface)
+		// a fully concrete []string is encoded by the real encoding/json (exact text, so
+		// that code which goes on to transform the bytes, e.g. base64, stays concrete)
+		if st, ok := x.t.Underlying().(*types.Slice); ok {
+			if b, ok := st.Elem().Underlying().(*types.Basic); ok && b.Kind() == types.String {
+				if sl, ok := x.v.(Slice); ok {
+					strs := make([]string, 0, len(sl.a))
+					concrete := true
+					for _, e := range sl.a {
+						es, ok := e.(Str)
+						if !ok {
+							concrete = false
+							break
+						}
+						es = es.force()
+						if !es.isConcrete() {
+							concrete = false
+							break
+						}
+						strs = append(strs, es.s)
+					}
+					if concrete {
+						if data, err := json.Marshal(strs); err == nil {
+							out := make([]Value, len(data))
+							for i, c := range data {
+								out[i] = mkBV(8, uint64(c))
+							}
+							return Tuple{Slice{a: out}, Iface{}}
+						}
+					}
+				}
+			}
+		}
 		n, err := it.jsonEncode(fr, x.t, x.v, false)
 		if err != "" {
 			return Tuple{Slice{}, it.errorString("json: " + err)}
